@@ -23,7 +23,7 @@ Ltac fin1 H :=
 Theorem step_rsingle s e : keyed s -> rsingle s -> rsingle (step s e).
 Proof.
   intros HK HR. pose proof (step_sext s e HK) as HS.
-  destruct e as [k tmo| | | |how|r|o|o|o|dt|o|k tmo|o]; apply (rsingle_gen s _ HR HS); intros p; unfold step.
+  destruct e as [k tmo| | | |how|r|o|o|o|dt|o|o|k tmo|o]; apply (rsingle_gen s _ HR HS); intros p; unfold step.
   - destruct (next_msgid (last s) (inuse s)); [destruct (is_running s)| |]; intros H; now left.
   - destruct (is_running s); cbn [negb]; [|now left];
     destruct (opq s) as [|o q]; [now left|]; destruct (getop s o) as [c|] eqn:Ec; [|now left];
@@ -45,6 +45,7 @@ Proof.
   - destruct (getop s o) as [c|]; [|now left]; destruct (o_status c); try (now left); try destruct (fix20 (fx s)); destruct (is_running s); now left.
   - now left.
   - now left.
+  - destruct (getop s o) as [c|]; [destruct (o_status c)|]; now left.
   - unfold alloc; destruct (next_msgid (last s) (inuse s)); intros H; now left.
   - unfold enqueue; destruct (getop s o) as [c|]; [|now left]; destruct (o_status c); try (now left); destruct (is_running s); now left.
 Qed.
@@ -166,7 +167,7 @@ Qed.
 
 Theorem exact_step s e : keyed s -> rsingle s -> exact s -> exact (step s e).
 Proof.
-  intros HK HR E. destruct e as [k tmo| | | |how|r|o|o|o|dt|o|k tmo|o]; unfold step.
+  intros HK HR E. destruct e as [k tmo| | | |how|r|o|o|o|dt|o|o|k tmo|o]; unfold step.
   - (* Start *) destruct (next_msgid (last s) (inuse s)); try exact E.
     destruct (is_running s); eapply (exact_app s); try exact E; reflexivity.
   - (* DrvOp *) destruct (is_running s); cbn [negb]; [|exact E].
@@ -218,6 +219,7 @@ Proof.
     destruct (o_status c); try apply ipres_refl; try destruct (fix20 (fx s)); destruct (is_running s); repeat istrip.
   - (* Advance *) apply (exact_ipres s); [exact E|]. repeat istrip.
   - (* ViaHandle *) apply (exact_ipres s); [exact E|]. repeat istrip.
+  - (* DropCall *) apply (exact_ipres s); [exact E|]. destruct (getop s o) as [c|] eqn:Ec; [destruct (o_status c) eqn:Est|]; repeat istrip.
   - (* Alloc *) unfold alloc. destruct (next_msgid (last s) (inuse s)); try exact E. eapply (exact_app s); try exact E; reflexivity.
   - (* Enqueue *) unfold enqueue. destruct (getop s o) as [c|] eqn:Ec; [|exact E]. apply (exact_ipres s); [exact E|].
     destruct (o_status c); try apply ipres_refl. destruct (is_running s); repeat istrip.
